@@ -207,3 +207,20 @@ def run(repo: Repo, rep: Report, tier: str) -> None:
              "the colour of the edge that really runs there — the fan-out router may add an entry under a reversed or spanning-tree key, but never replace one")
     from .shared import mst_colour_keys as _mck4
     _mck4(repo, rep, "C04-R7")
+
+    # ---------------- R8 ---------------------------------------------------------------
+    rep.rule("C04-R8", "an operand that reads a folded cell finds the combinator that now holds it: _resolve_source_entity falls back to the signal graph with a key for every way it can "
+             "obtain a candidate id (the id of a removed read names no placement; without the key the operand gets no wire selection and reads red + green)")
+    rse = repo.func("LayoutPlanner._resolve_source_entity")
+    crse = canon(rse)
+    fallback = [c for c in calls_in(rse.node, "get_source") if c.args]
+    rets8 = [n for n in walk_local(rse.node) if isinstance(n, ast.Return) and isinstance(n.value, ast.Name)]
+    if not fallback or not rets8:
+        raise AnalysisError("C04-R8: fallback lookup / candidate return not found in _resolve_source_entity")
+    cand_alts = set()
+    for r8 in rets8:
+        cand_alts |= {a for a in crse.alts(r8.value) if a != "None"}
+    key_alts = {a for c in fallback for a in crse.alts(c.args[0]) if a != "None"}
+    missing8 = sorted(cand_alts - key_alts)
+    rep.check(not missing8, "C04-R8", "_resolve_source_entity: every candidate id can also be looked up in the signal graph", f"candidates {sorted(cand_alts)}; graph keys {sorted(key_alts)}" if not missing8 else
+              f"candidate(s) {missing8} have no graph key: a reference whose node was replaced (a read of a cell folded into an arithmetic loop) resolves to nothing", rse.loc(fallback[0]))
